@@ -54,12 +54,16 @@ MutinyStream<'a, ItemType, ChannelConsumerType, DerivedItemType> {
 
     #[inline(always)]
     fn poll_next(self: Pin<&mut Self>, cx: &mut Context<'_>) -> Poll<Option<Self::Item>> {
+        // the "keep running" flag must be sampled before looking for an event: if it were read after an empty-handed `consume()`,
+        // events sent -- and a cancellation issued -- in between would make this stream end (and be dropped) with accepted events still buffered
+        let keep_stream_running = self.events_source.keep_stream_running(self.stream_id);
+        std::sync::atomic::compiler_fence(std::sync::atomic::Ordering::SeqCst);     // (the flag is a plain, non-atomic read: keep it where it is)
         let event = self.events_source.consume(self.stream_id);
         match event {
             Some(_) => Poll::Ready(event),
             None => {
                 #[cfg(feature = "verif")] crate::verif::point(crate::verif::MS_AFTER_CONSUME_NONE);
-                if self.events_source.keep_stream_running(self.stream_id) {
+                if keep_stream_running {
                     #[cfg(feature = "verif")] crate::verif::point(crate::verif::MS_AFTER_KEEP_RUNNING);
                     self.events_source.register_stream_waker(self.stream_id, cx.waker());
                     #[cfg(feature = "verif")] crate::verif::point(crate::verif::MS_BEFORE_PENDING);
